@@ -253,6 +253,222 @@ example : let r := step {} (run {} {} (life.take 6)) (.createOrGet 1)
     step {} (run {} r.1 [Op.remove 0, .cleanup [false, true], .createOrGet 2, .remove 3, .cleanup []]) (.createOrGet 1) =
       (run {} r.1 [Op.remove 0, .cleanup [false, true], .createOrGet 2, .remove 3, .cleanup []], .id 4) := by decide
 
+/-! ### (e) `cleanup_invalidated_loggers` -/
+
+/-- the clean-up step when the flag is set -/
+theorem step_cleanup_flag (p : Params) (s : St) (ans : List Bool) (hf : s.flag = true) :
+    step p s (.cleanup ans) =
+      ({ s with entries := (sweep s.entries ans).kept, flag := (sweep s.entries ans).rearm },
+       .removed (sweep s.entries ans).names (sweep s.entries ans).kept.length (sweep s.entries ans).rearm) := by
+  simp only [step, hf, if_true]
+
+/-- **the clean-up** (`ans` = what the `check_queues_empty` callback answers, call by call). With the flag clear it
+    returns at once. With the flag set: the callback is consulted once per INVALID entry in vector order
+    (`decisions`); the vector afterwards is the entries not erased, IN THEIR ORDER (in-place `erase`: a sublist); no
+    valid entry is erased; the returned names are those of the erased entries in vector order; the flag is re-armed iff
+    an invalid entry stays; no name's valid logger changes; every name not returned is looked up exactly as before
+    (same entry, same `get_logger` and `create_or_get_logger` answers) and every returned name has no entry any more -/
+theorem C17_logreg_cleanup (p : Params) (hp : p.OK) (ops : List Op) (ans : List Bool) :
+    let s := run p {} ops
+    let r := step p s (.cleanup ans)
+    let d := s.entries.zip (decisions s.entries ans)
+    let names := (d.filter (fun x => x.2)).map (·.1.name)
+    (s.flag = false → r = (s, .removed [] s.entries.length false)) ∧
+    (s.flag = true →
+      r.1.entries = (d.filter (fun x => !x.2)).map (·.1) ∧
+      r.1.entries.Sublist s.entries ∧
+      (∀ e ∈ s.entries, e.valid = true → e ∈ r.1.entries) ∧
+      (∀ x ∈ d, x.2 = true → x.1.valid = false) ∧
+      r.2 = .removed names r.1.entries.length r.1.flag ∧
+      r.1.next = s.next ∧
+      (r.1.flag = true ↔ ∃ e ∈ r.1.entries, e.valid = false) ∧
+      (∀ n, validOf r.1 n = validOf s n) ∧
+      (∀ n, n ∉ names → lookup r.1 n = lookup s n ∧ (step p r.1 (.get n)).2 = (step p s (.get n)).2 ∧
+        (step p r.1 (.createOrGet n)).2 = (step p s (.createOrGet n)).2) ∧
+      (∀ n ∈ names, lookup r.1 n = none ∧ (step p r.1 (.get n)).2 = .none)) := by
+  intro s r d names
+  have hs : RInv s := rinv_run p hp ops {} rinv_init
+  refine ⟨fun hf => by simp only [r, step, hf]; rfl, fun hf => ?_⟩
+  have hr : r = _ := step_cleanup_flag p s ans hf
+  have hr1 : RInv r.1 := rinv_step p hp s hs _
+  have hnames : names = (sweep s.entries ans).names := (sweep_names_eq _ _).symm
+  have hlk : ∀ n, n ∉ names → lookup r.1 n = lookup s n := by
+    intro n hn
+    rw [hnames] at hn
+    rw [hr]; exact sweep_find_of_not_mem s.entries ans n hn
+  have hlk2 : ∀ n ∈ names, lookup r.1 n = none := by
+    intro n hn
+    rw [hnames] at hn
+    rw [hr]; exact sweep_find_of_mem s.entries hs.pw ans n hn
+  refine ⟨?_, ?_, ?_, decisions_erased_invalid _ _, ?_, ?_, ?_, ?_, ?_, ?_⟩
+  · rw [hr]; exact sweep_kept_eq _ _
+  · rw [hr]; exact sweep_sublist _ _
+  · rw [hr]; exact sweep_valid_kept _ _
+  · rw [hr, hnames]
+  · rw [hr]
+  · rw [hr]
+    show (sweep s.entries ans).rearm = true ↔ _
+    rw [sweep_rearm, List.any_eq_true]
+    simp
+  · intro n
+    rw [hr]
+    exact sweep_validIn s.entries hs.pw ans n
+  · intro n hn
+    have h := hlk n hn
+    refine ⟨h, ?_, ?_⟩
+    · rw [step_get p hp _ hr1 n, step_get p hp s hs n, h]
+    · rw [step_createOrGet p hp _ hr1 n, step_createOrGet p hp s hs n, h]
+      cases lookup s n with
+      | some e => rfl
+      | none => rw [hr]
+  · intro n hn
+    have h := hlk2 n hn
+    exact ⟨h, by rw [step_get p hp _ hr1 n, h]⟩
+
+/-- both branches of `C17_logreg_cleanup` on the concrete life: flag clear → early return; flag set, two invalid
+    entries, answers `[false]` → the first (name 0) stays and re-arms the flag, the second (name 2) is erased -/
+example : (run {} {} (life.take 5)).flag = false ∧
+    step {} (run {} {} (life.take 5)) (.cleanup [true]) = (run {} {} (life.take 5), .removed [] 4 false) ∧
+    (run {} {} (life.take 9)).flag = true ∧
+    decisions (run {} {} (life.take 9)).entries [false] = [false, false, true, false] ∧
+    step {} (run {} {} (life.take 9)) (.cleanup [false]) =
+      ({ entries := [⟨0, 2, false⟩, ⟨1, 4, true⟩, ⟨3, 3, true⟩], next := 5, flag := true }, .removed [2] 3 true) := by
+  decide
+
+/-! ### (f) `remove_logger` -/
+
+/-- a name without valid logger stays so under any operations other than `create_or_get` of that name -/
+theorem none_kept (p : Params) (hp : p.OK) (n : Nat) (ops2 : List Op) (hno : ∀ op ∈ ops2, op ≠ .createOrGet n) :
+    ∀ (s : St), RInv s → validOf s n = none → RInv (run p s ops2) ∧ validOf (run p s ops2) n = none := by
+  induction ops2 with
+  | nil => intro s hs h; exact ⟨hs, h⟩
+  | cons op rest ih =>
+    intro s hs h
+    have hrest : ∀ op ∈ rest, op ≠ .createOrGet n := fun o ho => hno o (List.mem_cons_of_mem _ ho)
+    have hstep : validOf (step p s op).1 n = none := by
+      cases op with
+      | createOrGet m =>
+        have hm : n ≠ m := by intro e; exact hno (.createOrGet m) (List.mem_cons_self ..) (by rw [e])
+        rw [step_createOrGet p hp s hs m]
+        cases lookup s m with
+        | some j => exact h
+        | none => simp [validOf_created, hm, h]
+      | get m => rw [step_get p hp s hs m]; exact h
+      | remove m =>
+        simp only [step]
+        split
+        · rw [validOf_remove]; simp [h]
+        · exact h
+      | cleanup ans =>
+        simp only [step]
+        split
+        · rw [validOf_def]
+          simp only
+          rw [sweep_validIn s.entries hs.pw ans n]
+          exact h
+        · exact h
+      | all => exact h
+      | count => exact h
+    exact ih hrest _ (rinv_step p hp s hs op) hstep
+
+/-- **`remove_logger`**: afterwards the name has no valid logger (the entry stays, invalid, until the backend erases
+    it), no other name's valid logger changes, and `get_logger(name)` returns null after ANY further operations other
+    than `create_or_get_logger(name)` -/
+theorem C17_logreg_remove (p : Params) (hp : p.OK) (ops : List Op) (n : Nat) (ops2 : List Op) :
+    let s1 := (step p (run p {} ops) (.remove n)).1
+    validOf s1 n = none ∧ (∀ m, m ≠ n → validOf s1 m = validOf (run p {} ops) m) ∧
+    ((∀ op ∈ ops2, op ≠ .createOrGet n) → (step p (run p s1 ops2) (.get n)).2 = .none) := by
+  intro s1
+  have hs : RInv (run p {} ops) := rinv_run p hp ops {} rinv_init
+  have hs1 : RInv s1 := rinv_step p hp _ hs _
+  have h1 : validOf s1 n = none := by
+    simp only [s1, step]
+    split
+    · rw [validOf_remove]; simp
+    · rename_i hany
+      apply validOf_none_of
+      intro e he hn
+      simp only [List.any_eq_true, Bool.and_eq_true, beq_iff_eq, not_exists, not_and] at hany
+      simpa using hany e he hn
+  refine ⟨h1, fun m hm => ?_, fun hno => ?_⟩
+  · simp only [s1, step]
+    split
+    · rw [validOf_remove]; simp [hm]
+    · rfl
+  · obtain ⟨hinv, hv⟩ := none_kept p hp n ops2 hno s1 hs1 h1
+    rw [step_get_validOf p hp _ hinv n, hv]
+
+example : validOf (run {} {} (life.take 5)) 2 = some 1 ∧
+    validOf (step {} (run {} {} (life.take 5)) (.remove 2)).1 2 = none ∧
+    lookup (step {} (run {} {} (life.take 5)) (.remove 2)).1 2 = some ⟨2, 1, false⟩ := by decide
+
+/-- a clean-up whose callback always answers "queues empty" erases exactly the invalid entries -/
+theorem sweep_nil_answers (l : List Entry) :
+    sweep l [] = { kept := l.filter (fun e => e.valid), names := (l.filter (fun e => !e.valid)).map (·.name),
+                   rearm := false } := by
+  induction l with
+  | nil => rfl
+  | cons x xs ih =>
+    by_cases h : x.valid = true
+    · rw [sweep_cons_valid x xs [] h, ih]; simp [h]
+    · have h' : x.valid = false := by simpa using h
+      rw [sweep_cons_erase x xs [] h' rfl]
+      simp only [List.tail_nil, ih]
+      simp [h']
+
+/-- **re-creation after the erase**: once a valid logger of `name` was removed, `create_or_get_logger(name)` is the
+    contract guard as long as the backend has not erased the entry; after the clean-up (queues empty) the name has no
+    entry and `create_or_get_logger(name)` constructs a NEW object (identity = the counter, which no entry carries) -/
+theorem C17_logreg_recreate_after_erase (p : Params) (hp : p.OK) (ops : List Op) (n i : Nat) :
+    let s := run p {} ops
+    let s1 := (step p s (.remove n)).1
+    let s2 := (step p s1 (.cleanup [])).1
+    validOf s n = some i →
+      (step p s (.remove n)).2 = .ok ∧
+      step p s1 (.createOrGet n) = (s1, .guard) ∧
+      lookup s2 n = none ∧ (∀ e ∈ s2.entries, e.valid = true) ∧ s2.flag = false ∧
+      (step p s2 (.createOrGet n)).2 = .id s.next ∧ (∀ e ∈ s2.entries, e.id ≠ s.next) ∧ i ≠ s.next := by
+  intro s s1 s2 hv
+  have hs : RInv s := rinv_run p hp ops {} rinv_init
+  obtain ⟨e, he, hn, hval, hid⟩ := (validOf_some_iff s hs n i).1 hv
+  have hany : s.entries.any (fun e => e.name == n && e.valid) = true := by
+    rw [List.any_eq_true]; exact ⟨e, he, by simp [hn, hval]⟩
+  have hst : step p s (.remove n) = ({ s with entries := s.entries.map (inval n), flag := true }, .ok) := by
+    simp only [step, hany, if_true]
+  have hs1e : s1 = { s with entries := s.entries.map (inval n), flag := true } := by simp only [s1, hst]
+  have hs1 : RInv s1 := rinv_step p hp _ hs _
+  have hs2 : RInv s2 := rinv_step p hp _ hs1 _
+  have hl1 : lookup s1 n = some (inval n e) := by
+    rw [hs1e, lookup_remove]
+    have := find_some_of_mem s.entries hs.pw e he
+    rw [hn] at this
+    rw [lookup_def, this]; rfl
+  have hinv : (inval n e).valid = false := by rw [inval_valid]; simp [hn]
+  have hs2e : s2 = { s1 with entries := s1.entries.filter (fun e => e.valid), flag := false } := by
+    have hf : s1.flag = true := by rw [hs1e]
+    simp only [s2, step_cleanup_flag p s1 [] hf, sweep_nil_answers]
+  have hl2 : lookup s2 n = none := by
+    rw [hs2e, lookup_none_iff]
+    intro a ha
+    have ha' := List.mem_filter.1 ha
+    intro hna
+    have hmem := (lookup_some_mem hl1).1
+    have := eq_of_name_eq s1.entries hs1.pw a ha'.1 (inval n e) hmem (by rw [hna, inval_name, hn])
+    rw [this, hinv] at ha'
+    exact absurd ha'.2 (by simp)
+  have hnext : s2.next = s.next := by rw [hs2e, hs1e]
+  refine ⟨by rw [hst], ?_, hl2, ?_, by rw [hs2e], ?_, ?_, ?_⟩
+  · rw [step_createOrGet p hp s1 hs1 n, hl1]; simp [hinv]
+  · rw [hs2e]; intro a ha; exact (List.mem_filter.1 ha).2
+  · rw [step_createOrGet p hp s2 hs2 n, hl2, hnext]
+  · intro a ha; have := hs2.lt a ha; rw [hnext] at this; exact Nat.ne_of_lt this
+  · have := hs.lt e he; omega
+
+example : let s := run {} {} (life.take 5)
+    validOf s 2 = some 1 ∧ s.next = 5 ∧
+    (step {} (step {} (step {} s (.remove 2)).1 (.cleanup [])).1 (.createOrGet 2)).2 = .id 5 ∧
+    (step {} (step {} s (.remove 2)).1 (.createOrGet 2)).2 = .guard := by decide
+
 /-! ### (g) negative witnesses -/
 
 /-- **negative witness (unstable clean-up: `std::partition` + range `erase` instead of the in-place `erase`)**: with
